@@ -32,6 +32,8 @@ func checkC01(c *Ctx, r *Report, tier string) {
 	r.Rule("C01.R7", "a restored index answers from restored state only: every successful return of the index reader is preceded by a reset of maps, counters and entry point; the visited sets of the traversals are seeded before the traversal", 5)
 	restoreResetsBeforeSuccess(c, r, "C01.R7")
 	visitedSetSeeded(c, r, "C01.R7")
+	r.Rule("C01.R8", "current metadata: the apply functions never hand one map, allocated before a loop over batch items and written inside it, to the index for several items", 1)
+	sharedMapAcrossItems(c, r, "C01.R8")
 }
 
 // --- R1 ---------------------------------------------------------------------------
